@@ -42,6 +42,31 @@ func (s *stats) report(f *finding) {
 	}
 }
 
+// absorb adds the observations of t (a trial judgement that was accepted).
+func (s *stats) absorb(t *stats) {
+	for k, v := range t.counters {
+		s.counters[k] += v
+	}
+	for k := range t.shapes {
+		s.shapes[k] = struct{}{}
+	}
+	s.incon = append(s.incon, t.incon...)
+}
+
+// absorbAll merges everything a worker goroutine observed.
+func (s *stats) absorbAll(t *stats) {
+	s.absorb(t)
+	for k, v := range t.fcount {
+		s.fcount[k] += v
+	}
+	for k, f := range t.findings {
+		if old := s.findings[k]; old == nil || f.Size < old.Size {
+			s.findings[k] = f
+		}
+	}
+	s.samples = append(s.samples, t.samples...)
+}
+
 func (s *stats) inconclusive(format string, a ...interface{}) {
 	if len(s.incon) < 5 {
 		s.incon = append(s.incon, fmt.Sprintf(format, a...))
@@ -111,27 +136,37 @@ func originSummary(info *core.RegionInfo) string {
 	return sim.FromInfo(info).Describe()
 }
 
-// refusesLeaders: does the store refuse leaders according to the property statement: reject-leader label
-// property, leader transfer paused (by an operator, by an evict-leader or grant-leader scheduler).
+// refusal: does the store refuse leaders according to the property statement: reject-leader label property,
+// leader transfer paused (by an operator, by an evict-leader or grant-leader scheduler). "" = it accepts them.
 // The grant-leader scheduler pauses the very store it is told to fill; a transfer *by that scheduler to
 // that store* is the one documented exception.
-func refusesLeaders(w *world, store uint64, src string) string {
+func (w *world) refusal(store uint64, src string) string {
 	sd := w.store(store)
-	if sd == nil {
+	if sd == nil || sd.acceptsLeadersLeniently {
 		return ""
 	}
 	if rej, _ := w.rejects(sd); rej {
 		return "reject-leader-label"
 	}
+	why := ""
 	switch {
 	case sd.State == stPaused:
 		return "leader-transfer-paused"
 	case w.Evict == store:
-		return "evict-leader-store"
+		why = "evict-leader-store"
 	case w.Grant == store && src != "grant-leader":
-		return "grant-leader-store-paused"
+		why = "grant-leader-store-paused"
 	}
-	return ""
+	for _, e := range w.EvictMore {
+		if e == store {
+			why = "evict-leader-store"
+		}
+	}
+	if why != "" && src == "scatter" {
+		// for the scatterer there is one flag, "leader transfer paused", whoever set it (one known finding, one key)
+		why = "leader-transfer-paused"
+	}
+	return why
 }
 
 // judgeOp replays the operator on the store simulator and evaluates the oracles of C11, all written from
@@ -188,7 +223,7 @@ func judgeOp(s *stats, c *opCase) verdict {
 			ss = append(ss, st.String())
 		}
 		w := map[string]interface{}{
-			"source": c.Src, "world": c.W, "region": origin.Describe(), "region_layout": origin.String(),
+			"source": c.Src, "world": c.W.clone(), "region": origin.Describe(), "region_layout": origin.String(),
 			"operator": c.Op.String(), "steps": ss, "failed_at_step": at, "trace": append([]string(nil), trace...),
 		}
 		for k, x := range c.Extra {
@@ -226,7 +261,12 @@ func judgeOp(s *stats, c *opCase) verdict {
 				fail("leader-transfer-to-unknown-store:"+c.Src, fmt.Sprintf("step %d (%s): store %d does not exist", i, st, x.ToStore), i)
 				return v
 			}
-			if why := refusesLeaders(c.W, x.ToStore, c.Src); why != "" {
+			if why := c.W.refusal(x.ToStore, c.Src); why != "" && x.ToStore == origin.LeaderStore {
+				// The operator moved the leader away for a while and hands it back to the store that led the region
+				// when the operator was built (the other voters refuse leaders too, or are being removed). Nothing
+				// gets worse than it was; the statement does not say whether this counts as "moving a leader to".
+				s.count("skipped_ambiguous_leader_handed_back_to_its_refusing_origin_store", 1)
+			} else if why != "" {
 				// not blocking: the store executes the transfer, the replay goes on
 				detail := why
 				if _, which := c.W.rejects(sd); which != "" {
